@@ -189,6 +189,23 @@ def explore(nl, nr, order=None, timeout=600, max_paths=50000):
             ex.solver.add(*[z3.And(lb[l][0] == lb[l][2], lb[l][1] == lb[l][3]) for l in range(nl)])     # left rows are points
             if str(ex.solver.check()) == 'sat':
                 viol = {'model': model_ints(ex.solver.model(), allv), 'pairs': str(fpd.frames)[:300], 'rect': True, 'raised': raised}
+                ex.solver.pop()
+                break
+            ex.solver.pop()
+            # otherwise one realisable with two-point multipoints on a diagonal of the right bounds (a left point matches iff it is an end point)
+            ex.solver.push()
+            ex.solver.add(*ex.pc)
+            ex.solver.add(z3.Not(z3.And(*conds)))
+            dg = [z3.Bool(f'diag{r}') for r in range(nr)]
+            ex.solver.add(*[z3.And(lb[l][0] == lb[l][2], lb[l][1] == lb[l][3]) for l in range(nl)])
+            for l in range(nl):
+                for r in range(nr):
+                    px, py = lb[l][0], lb[l][1]
+                    a = z3.If(dg[r], z3.Or(z3.And(px == rb[r][0], py == rb[r][1]), z3.And(px == rb[r][2], py == rb[r][3])),
+                              z3.Or(z3.And(px == rb[r][0], py == rb[r][3]), z3.And(px == rb[r][2], py == rb[r][1])))
+                    ex.solver.add(J[l][r] == z3.And(z3.Not(lnan[l]), z3.Not(rnan[r]), a))
+            if str(ex.solver.check()) == 'sat':
+                viol = {'model': model_ints(ex.solver.model(), allv + dg), 'pairs': str(fpd.frames)[:300], 'rect': 'diag', 'raised': raised}
             ex.solver.pop()
             break
         ex.solver.pop()
@@ -217,6 +234,8 @@ def replay(nl, nr, model, rect):
     vals = sorted({model[k] for k in names})
     rk = {v: float(i) for i, v in enumerate(vals)}
     g = lambda k: rk[model[k]]   # noqa: E731
+    if rect == 'diag':
+        return replay_diag(nl, nr, model, rk)
     lpts, rshapes = [], []
     for i in range(nl):
         lpts.append(None if model.get(f'lnan{i}') else [g(f'l{i}_0'), g(f'l{i}_1')])
@@ -270,3 +289,34 @@ def replay(nl, nr, model, rect):
         return True, wit
     wit.update(got=got, expected=sorted(want))
     return got != sorted(want), wit
+
+
+def replay_diag(nl, nr, model, rk):
+    """public sjoin(inner): left points, right two-point multipoints on a diagonal of their bounds"""
+    import spatialpandas as sp
+    import spatialpandas.geometry as sg
+    from spatialpandas.tools.sjoin import sjoin
+    g = lambda k: rk[model[k]]   # noqa: E731
+    lpts = [None if model.get(f'lnan{i}') else [g(f'l{i}_0'), g(f'l{i}_1')] for i in range(nl)]
+    rshapes = []
+    for i in range(nr):
+        if model.get(f'rmiss{i}'):
+            rshapes.append(None)
+        elif model.get(f'rnan{i}'):
+            rshapes.append([])
+        else:
+            x0, y0, x1, y1 = g(f'r{i}_0'), g(f'r{i}_1'), g(f'r{i}_2'), g(f'r{i}_3')
+            rshapes.append([x0, y0, x1, y1] if model.get(f'diag{i}') else [x0, y1, x1, y0])
+    left = sp.GeoDataFrame({'geometry': sg.PointArray(lpts, dtype='float64'), 'lid': list(range(nl))})
+    right = sp.GeoDataFrame({'geometry': sg.MultiPointArray(rshapes, dtype='float64'), 'rid': list(range(nr))})
+    want = sorted((l, r) for l in range(nl) for r in range(nr) if lpts[l] is not None and rshapes[r]
+                  and (lpts[l] == rshapes[r][:2] or lpts[l] == rshapes[r][2:]))
+    wit = {'left_points': lpts, 'right_shapes': rshapes, 'right_kind': 'multipoint', 'expected': want}
+    try:
+        res = sjoin(left, right, how='inner')
+        got = sorted((int(a), int(b)) for a, b in zip(res['lid'], res['rid']))
+    except Exception as e:  # noqa: BLE001
+        wit['got'] = f'raises {type(e).__name__}: {e}'
+        return True, wit
+    wit['got'] = got
+    return got != want, wit
